@@ -107,14 +107,14 @@ def callStep (O : Oracles) (c : ClassOpts) (fields : List (String × FieldDecl))
       else if !r.overridden || r.superCall then (assocSet f new s, .ok)   -- in place, unvalidated
       else (s, .ok)
 
-/-- element `k` of a sequence / map payload -/
-def elemAt (cur : PyVal) (k : PyVal) : Option PyVal :=
+/-- element `k` of a sequence / map payload (one level) -/
+def elemAt1 (cur : PyVal) (k : PyVal) : Option PyVal :=
   match cur with
   | .list xs | .deque xs => (intOf k).bind (fun i => (normIndex xs.length i).bind (fun j => xs[j]?))
   | .dict kvs => dictGet k kvs
   | _ => none
 
-def setElemAt (cur : PyVal) (k : PyVal) (v : PyVal) : PyVal :=
+def setElemAt1 (cur : PyVal) (k : PyVal) (v : PyVal) : PyVal :=
   match cur with
   | .list xs => match (intOf k).bind (normIndex xs.length) with
     | some j => .list (setAt xs j v) | none => cur
@@ -123,13 +123,66 @@ def setElemAt (cur : PyVal) (k : PyVal) (v : PyVal) : PyVal :=
   | .dict kvs => .dict (dictSetN k v kvs)
   | _ => cur
 
-/-- declaration of element `k` of a collection field -/
-def elemDecl (fd : FieldDecl) (k : PyVal) : Option FieldDecl :=
+/-- declaration of element `k` of a collection field (one level) -/
+def elemDecl1 (fd : FieldDecl) (k : PyVal) : Option FieldDecl :=
   match fd with
   | .seqOf _ item _ => some item
   | .seqPos _ items _ _ => (intOf k).bind (fun i => if i < 0 then none else items[i.toNat]?)
   | .mapOf _ vf _ => some vf
   | _ => none
+
+/-! A nested wrapper at depth >= 2 (`x.f[i][j].append(v)`) is addressed by a PATH of keys; on the wire
+    and in `Op.callNested` the path is the key `.list [k₁, k₂, …]` (a list is never a valid index or a
+    hashable map key, so the encoding is unambiguous). -/
+
+def elemAtPath : PyVal → List PyVal → Option PyVal
+  | cur, [] => some cur
+  | cur, k :: ks => (elemAt1 cur k).bind (fun e => elemAtPath e ks)
+
+def setElemAtPath : PyVal → List PyVal → PyVal → PyVal
+  | _, [], v => v
+  | cur, k :: ks, v => match elemAt1 cur k with
+    | some e => setElemAt1 cur k (setElemAtPath e ks v)
+    | none => cur
+
+def elemDeclPath : FieldDecl → List PyVal → Option FieldDecl
+  | fd, [] => some fd
+  | fd, k :: ks => (elemDecl1 fd k).bind (fun d => elemDeclPath d ks)
+
+/-- the error of `cur[k]` when there is no such element: KeyError for a map, for a sequence
+    IndexError (an integer out of range) or TypeError (not an integer) -/
+def lookupErr1 (cur : PyVal) (k : PyVal) : MErr :=
+  match cur with
+  | .dict _ => .keyErr
+  | _ => if (intOf k).isSome then .indexErr else .typeErr
+
+/-- … along a path: the error of the first lookup that fails -/
+def lookupErrPath : PyVal → List PyVal → MErr
+  | _, [] => .indexErr
+  | cur, k :: ks => match elemAt1 cur k with
+    | some e => lookupErrPath e ks
+    | none => lookupErr1 cur k
+
+def elemAt (cur : PyVal) (k : PyVal) : Option PyVal :=
+  match k with
+  | .list ks => elemAtPath cur ks
+  | _ => elemAt1 cur k
+
+def setElemAt (cur : PyVal) (k : PyVal) (v : PyVal) : PyVal :=
+  match k with
+  | .list ks => setElemAtPath cur ks v
+  | _ => setElemAt1 cur k v
+
+def elemDecl (fd : FieldDecl) (k : PyVal) : Option FieldDecl :=
+  match k with
+  | .list ks => elemDeclPath fd ks
+  | _ => elemDecl1 fd k
+
+/-- the error of a nested lookup that finds no element -/
+def lookupErr (cur : PyVal) (k : PyVal) : MErr :=
+  match k with
+  | .list ks => lookupErrPath cur ks
+  | _ => lookupErr1 cur k
 
 /-- a wrapper nested inside another collection is bound to the scratch structure used while its
     parent was validated: its "validated assignment" goes nowhere; only an in-place native call
@@ -168,7 +221,7 @@ def step (tbl : List MethodRec) (O : Oracles) (c : ClassOpts) (fields : List (St
             | some kind => match findRec tbl kind m.name with
               | none => (s, .err (.other "AttributeError"))
               | some r => nestedStep c s f k kind r m cur elem)
-        | _, _ => (s, .err (match cur with | .dict _ => .keyErr | _ => .indexErr)))
+        | _, _ => (s, .err (lookupErr cur k)))
     | _, _ => (s, .err (.other "AttributeError"))
 
 /-- run a history of operations; the outcomes are collected, failed ones included -/
@@ -225,7 +278,7 @@ def stepB (bound dh : Bool) (tbl : List MethodRec) (O : Oracles) (c : ClassOpts)
             | some kind => match findRec tbl kind m.name with
               | none => (s, .err (.other "AttributeError"))
               | some r => nestedBoundStep O c fields s f k kind r m cur elem)
-        | _, _ => (s, .err (match cur with | .dict _ => .keyErr | _ => .indexErr)))
+        | _, _ => (s, .err (lookupErr cur k)))
     | _, _ => (s, .err (.other "AttributeError")))
   | _, .delitem f => delitemStepH dh O c s f
   | _, op => step tbl O c fields s op
